@@ -413,40 +413,123 @@ def wordHourToTime (cfg : TimeCfg) (source : Str) (ref : DT) : Option Res :=
       some { success := true, timex := 84 :: fmtD 2 hour, comment := comment, future := v, past := v }
     else none
 
-/-! ### English `adjust_by_prefix` / `adjust_by_suffix` -/
+/-! ### `adjust_by_prefix` / `adjust_by_suffix` of the culture configurations
 
-def sHalf : Str := [104, 97, 108, 102]
-def sAQuarter : Str := [97, 32, 113, 117, 97, 114, 116, 101, 114]
-def sQuarter : Str := [113, 117, 97, 114, 116, 101, 114]
-def sThreeQuarter : Str := [116, 104, 114, 101, 101, 32, 113, 117, 97, 114, 116, 101, 114]
-def sTo : Str := [116, 111]
+All eight `*TimeParserConfiguration.adjust_by_prefix` have one shape: a chain of fixed-phrase tests giving a delta,
+else the `LessThanOneHour` regex (guarded by `if match:` or not; `numbers[...]` or `numbers.get(...)`), then a sign /
+half-hour rule, then the carry into the hour. The phrases are string literals *in the code* (not in the resource
+files), so the per-culture `PrefixStyle` values below are hand-written and tied by unit correspondence. German and
+Dutch test token regexes instead of literals: their outcomes are inputs (`flags`). -/
 
-/-- `EnglishTimeParserConfiguration.adjust_by_prefix`. `ltoh` = groups (`deltamin`, `deltaminnum`) of
-`regex.search(less_than_one_hour, prefix)` or `none` when it does not match (then the code raises AttributeError on
-`None.lower()` unless `deltamin`… cannot be read either: `"Other"`). -/
-def enAdjustByPrefix (u : Uni) (numbers : List (Str × Nat)) (ltoh : Option (Str × Str)) (pfx : Str) (a : Adjust) :
-    Except String Adjust := do
+inductive PTest where
+  | starts (s : Str)
+  | ends (s : Str)
+  | contains (s : Str)
+  /-- outcome of the i-th token regex searched in the (untrimmed) prefix -/
+  | flag (i : Nat)
+deriving Repr
+
+def PTest.eval (p : Str) (flags : List Bool) : PTest → Bool
+  | .starts s => startsWith p s
+  | .ends s => endsWith p s
+  | .contains s => (findFrom p s 0).isSome
+  | .flag i => flags.getD i false
+
+inductive PostOp where
+  | keep        -- `pass`
+  | neg         -- `delta_min * -1`
+  | subHalf     -- `delta_min - 30`
+  | negSubHalf  -- `-delta_min - 30`
+deriving Repr, DecidableEq
+
+structure PrefixStyle where
+  /-- `if … elif …` chain of phrase tests (a disjunction each) with the delta they assign -/
+  fixed : List (List PTest × Int)
+  /-- the regex branch is guarded by `if match:` (no match leaves delta 0) -/
+  guarded : Bool
+  /-- `numbers.get(min_str)` (a miss gives `None`, a TypeError follows) rather than `numbers[min_str]` (KeyError) -/
+  numbersGet : Bool
+  /-- `if … elif …` chain applied afterwards; first hit wins -/
+  post : List (List PTest × PostOp)
+deriving Repr
+
+def firstHit (p : Str) (flags : List Bool) : List (List PTest × α) → Option α
+  | [] => none
+  | (ts, v) :: r => if ts.any (PTest.eval p flags) then some v else firstHit p flags r
+
+/-- `adjust_by_prefix(prefix, adjust)`. `ltoh` = groups (`deltamin`, `deltaminnum`) of
+`regex.search(less_than_one_hour, prefix.strip())`, `none` when there is no match. Errors: `"Other"` = AttributeError /
+TypeError on `None`. -/
+def adjustByPrefixG (u : Uni) (numbers : List (Str × Nat)) (st : PrefixStyle) (flags : List Bool)
+    (ltoh : Option (Str × Str)) (pfx : Str) (a : Adjust) : Except String Adjust := do
   let p := strip u.isSpace pfx
   let delta : Int ←
-    if startsWith p sHalf then pure 30
-    else if startsWith p sAQuarter || startsWith p sQuarter then pure 15
-    else if startsWith p sThreeQuarter then pure 45
-    else match ltoh with
-      | none => throw "Other"
+    match firstHit p flags st.fixed with
+    | some d => pure d
+    | none =>
+      match ltoh with
+      | none => if st.guarded then pure 0 else throw "Other"
       | some (dm, dmn) =>
         if !dm.isEmpty then intOf u dm
         else match lookup numbers dmn with
           | some v => pure (v : Int)
-          | none => throw "KeyError"
-  let delta := if endsWith p sTo then delta * -1 else delta
+          | none => if st.numbersGet then throw "Other" else throw "KeyError"
+  let delta : Int :=
+    match firstHit p flags st.post with
+    | some .neg => delta * -1
+    | some .subHalf => delta - 30
+    | some .negSubHalf => -delta - 30
+    | _ => delta
   let minute := a.minute + delta
   let (minute, hour) := if minute < 0 then (minute + 60, a.hour - 1) else (minute, a.hour)
   return { a with hour := hour, minute := minute, hasMinute := true }
 
+def enPrefixStyle : PrefixStyle :=
+  { fixed := [([.starts [104, 97, 108, 102]], 30), ([.starts [97, 32, 113, 117, 97, 114, 116, 101, 114], .starts [113, 117, 97, 114, 116, 101, 114]], 15), ([.starts [116, 104, 114, 101, 101, 32, 113, 117, 97, 114, 116, 101, 114]], 45)],
+    guarded := false, numbersGet := false, post := [([.ends [116, 111]], .neg)] }
+
+def esPrefixStyle : PrefixStyle :=
+  { fixed := [([.starts [99, 117, 97, 114, 116, 111], .starts [121, 32, 99, 117, 97, 114, 116, 111]], 15), ([.starts [109, 101, 110, 111, 115, 32, 99, 117, 97, 114, 116, 111]], -15),
+              ([.starts [109, 101, 100, 105, 97], .starts [121, 32, 109, 101, 100, 105, 97]], 30), ([.starts [116, 104, 114, 101, 101, 32, 113, 117, 97, 114, 116, 101, 114]], 45)],
+    guarded := true, numbersGet := true,
+    post := [([.ends [112, 97, 115, 97, 100, 97, 115], .ends [112, 97, 115, 97, 100, 111, 115], .ends [112, 97, 115, 97, 100, 97, 115, 32, 108, 97, 115], .ends [112, 97, 115, 97, 100, 111, 115, 32, 108, 97, 115], .ends [112, 97, 115, 97, 100, 97, 115, 32, 100, 101, 32, 108, 97, 115],
+               .ends [112, 97, 115, 97, 100, 111, 115, 32, 100, 101, 32, 108, 97, 115]], .keep),
+             ([.ends [112, 97, 114, 97, 32, 108, 97], .ends [112, 97, 114, 97, 32, 108, 97, 115], .ends [97, 110, 116, 101, 115, 32, 100, 101, 32, 108, 97], .ends [97, 110, 116, 101, 115, 32, 100, 101, 32, 108, 97, 115]], .neg)] }
+
+def frPrefixStyle : PrefixStyle :=
+  { fixed := [([.ends [100, 101, 109, 105, 101]], 30), ([.ends [117, 110, 32, 113, 117, 97, 114, 116], .ends [113, 117, 97, 114, 116]], 15), ([.ends [116, 114, 111, 105, 115, 32, 113, 117, 97, 114, 116, 115]], 45)],
+    guarded := true, numbersGet := true, post := [([.ends [224], .contains [109, 111, 105, 110, 115]], .neg)] }
+
+def ptPrefixStyle : PrefixStyle :=
+  { fixed := [([.starts [109, 101, 105, 97], .starts [101, 32, 109, 101, 105, 97]], 30),
+              ([.starts [113, 117, 97, 114, 116, 111], .starts [101, 32, 117, 109, 32, 113, 117, 97, 114, 116, 111], .starts [113, 117, 105, 110, 122, 101], .starts [101, 32, 113, 117, 105, 110, 122, 101]], 15),
+              ([.starts [109, 101, 110, 111, 115, 32, 117, 109, 32, 113, 117, 97, 114, 116, 111]], -15)],
+    guarded := false, numbersGet := false,
+    post := [([.ends [112, 97, 114, 97, 32, 97], .ends [112, 97, 114, 97, 32, 97, 115], .ends [112, 114, 97], .ends [112, 114, 97, 115], .ends [97, 110, 116, 101, 115, 32, 100, 97], .ends [97, 110, 116, 101, 115, 32, 100, 97, 115]], .neg)] }
+
+def itPrefixStyle : PrefixStyle :=
+  { fixed := [([.ends [109, 101, 122, 122, 97], .ends [109, 101, 122, 122, 111]], 30), ([.ends [117, 110, 32, 113, 117, 97, 114, 116, 111], .ends [113, 117, 97, 114, 116, 111]], 15), ([.ends [116, 114, 101, 32, 113, 117, 97, 114, 116, 105]], 45)],
+    guarded := true, numbersGet := true, post := [([.starts [109, 101, 110, 111], .ends [97, 108, 108, 101]], .neg)] }
+
+/-- flags: half, quarter-to, quarter-past, three-quarter-to, three-quarter-past token regexes -/
+def dePrefixStyle : PrefixStyle :=
+  { fixed := [([.flag 0], -30), ([.flag 1], -15), ([.flag 2], 15), ([.flag 3], -45), ([.flag 4], 45)],
+    guarded := true, numbersGet := true, post := [([.starts [122, 117, 109]], .neg)] }
+
+/-- flags: half, quarter, three-quarter token regexes; to-half, for-half, to token regexes -/
+def nlPrefixStyle : PrefixStyle :=
+  { fixed := [([.flag 0], -30), ([.flag 1], 15), ([.flag 2], 45)],
+    guarded := true, numbersGet := true, post := [([.flag 3], .subHalf), ([.flag 4], .negSubHalf), ([.flag 5], .neg)] }
+
+/-- `EnglishTimeParserConfiguration.adjust_by_prefix` -/
+def enAdjustByPrefix (u : Uni) (numbers : List (Str × Nat)) (ltoh : Option (Str × Str)) (pfx : Str) (a : Adjust) :
+    Except String Adjust := adjustByPrefixG u numbers enPrefixStyle [] ltoh pfx a
+
 /-- Outcome of the regex searches `adjust_by_suffix` performs. -/
 structure SuffixInfo where
-  /-- `time_suffix_full` matches the whole (stripped) suffix -/
+  /-- the culture's time-suffix regex matches the whole (stripped) suffix -/
   full : Bool := false
+  /-- group `oclock` (`heures` in French) -/
   oclock : Str := []
   am : Str := []
   pm : Str := []
@@ -456,26 +539,53 @@ structure SuffixInfo where
   night : Bool := false
 deriving Repr, Inhabited
 
-/-- `EnglishTimeParserConfiguration.adjust_by_suffix` -/
-def enAdjustBySuffix (si : SuffixInfo) (a : Adjust) : Adjust :=
+/-- The four shapes of `adjust_by_suffix` in the tree. -/
+structure SuffixStyle where
+  /-- Spanish / French: `has_am` / `has_pm` are set whenever the am / pm group is there; no lunch / night rules -/
+  simple : Bool
+  /-- the lunch rule exists (English, Dutch) -/
+  lunch : Bool
+  /-- the closing `else: adjust.has_pm = True` of the pm branch exists (Dutch; English / Portuguese / Italian /
+  German after the repair of finding `afternoon-12`) -/
+  elsePm : Bool
+deriving Repr, DecidableEq
+
+/-- `adjust_by_suffix(suffix, adjust)` -/
+def adjustBySuffixG (st : SuffixStyle) (si : SuffixInfo) (a : Adjust) : Adjust :=
   let (a, delta) : Adjust × Int :=
     if si.full && si.oclock.isEmpty then
-      let (a, delta) : Adjust × Int :=
-        if !si.am.isEmpty then (if a.hour ≥ 12 then (a, -12) else ({ a with hasAm := true }, 0)) else (a, 0)
-      if !si.pm.isEmpty then
-        let delta := if a.hour < 12 then 12 else delta
-        if si.lunch then
-          if 10 ≤ a.hour ∧ a.hour ≤ 12 then
-            (if a.hour = 12 then { a with hasPm := true } else { a with hasAm := true }, 0)
-          else ({ a with hasPm := true }, delta)
-        else if si.night then
-          if a.hour ≤ 3 ∨ a.hour = 12 then
-            ({ a with hour := (if a.hour = 12 then 0 else a.hour), hasAm := true }, 0)
-          else ({ a with hasPm := true }, delta)
+      if st.simple then
+        let (a, delta) : Adjust × Int :=
+          if !si.am.isEmpty then ({ a with hasAm := true }, (if a.hour ≥ 12 then -12 else 0)) else (a, 0)
+        if !si.pm.isEmpty then ({ a with hasPm := true }, (if a.hour < 12 then 12 else delta)) else (a, delta)
+      else
+        let (a, delta) : Adjust × Int :=
+          if !si.am.isEmpty then (if a.hour ≥ 12 then (a, -12) else ({ a with hasAm := true }, 0)) else (a, 0)
+        if !si.pm.isEmpty then
+          let delta := if a.hour < 12 then 12 else delta
+          if st.lunch && si.lunch then
+            if 10 ≤ a.hour ∧ a.hour ≤ 12 then
+              (if a.hour = 12 then { a with hasPm := true } else { a with hasAm := true }, 0)
+            else ({ a with hasPm := true }, delta)
+          else if si.night then
+            if a.hour ≤ 3 ∨ a.hour = 12 then
+              ({ a with hour := (if a.hour = 12 then 0 else a.hour), hasAm := true }, 0)
+            else ({ a with hasPm := true }, delta)
+          else if st.elsePm then ({ a with hasPm := true }, delta)
+          else (a, delta)
         else (a, delta)
-      else (a, delta)
     else (a, 0)
   { a with hour := (a.hour + delta).emod 24 }
+
+/-- English as found: lunch rule, no closing `else` -/
+def enSuffixStyle (repaired : Bool) : SuffixStyle := { simple := false, lunch := true, elsePm := repaired }
+/-- Portuguese, Italian, German: night rule only -/
+def nightSuffixStyle (repaired : Bool) : SuffixStyle := { simple := false, lunch := false, elsePm := repaired }
+def nlSuffixStyle : SuffixStyle := { simple := false, lunch := true, elsePm := true }
+def simpleSuffixStyle : SuffixStyle := { simple := true, lunch := false, elsePm := false }
+
+/-- `EnglishTimeParserConfiguration.adjust_by_suffix` (as found) -/
+def enAdjustBySuffix (si : SuffixInfo) (a : Adjust) : Adjust := adjustBySuffixG (enSuffixStyle false) si a
 
 /-! ## `BaseDateParser.match_to_date` -/
 
